@@ -146,6 +146,10 @@ def isinstance_(ip, st, v, cls):
             f = ip.reg.ufun("isinst_%s_%s" % (cls.name, v.sort), [v.sort], "Bool")
             return T("(%s %s)" % (f, v.t.s), "Bool")
         return FALSE
+    if isinstance(cls, Opaque) and cls.sort == "Obj" and isinstance(v, Opaque) and v.sort in ("Obj", "V"):
+        # a class the caller supplies (an abstract object) against an abstract value: a predicate of the two
+        f = ip.reg.ufun("isinst_dyn_%s" % v.sort, [v.sort, "Obj"], "Bool")
+        return T("(%s %s %s)" % (f, v.t.s, cls.t.s), "Bool")
     raise U("isinstance against %r" % (cls,))
 
 
@@ -203,6 +207,11 @@ def is_callable(ip, st, v):
             # "the element has this attribute and it is callable" (abstract predicate over element and attribute name)
             obj_preds(ip)
             return T("(callable_attr %s %s)" % (v.elem.t.s, method_key(ip, v).s), "Bool")
+        if v.kind == "method" and isinstance(getattr(v, "recv", None), Opaque) and v.recv.sort == "V":
+            # an attribute of an abstract flow value (`data.write`): whether it is callable is the value's own business
+            ip.reg.need_val()
+            f = ip.reg.ufun("callable_attr_V", ["V", "Key"], "Bool")
+            return T("(%s %s %s)" % (f, v.recv.t.s, ip.reg.key(v.name).s), "Bool")
         return TRUE
     if isinstance(v, Opaque) and v.sort in ("Obj", "V"):
         f = ip.reg.ufun("is_callable_" + v.sort, [v.sort], "Bool")
@@ -476,6 +485,13 @@ def consume_view(ip, st, v):
 
 def call_method(ip, st, recv, name, pos, kws, node):
     reg = ip.reg
+    if name in ("startswith", "replace") and ((isinstance(recv, Opaque) and recv.sort in ("Val", "Key")) or
+                                               (isinstance(recv, Ref) and isinstance(st.heap.get(recv.cid), ValCell))):
+        # a string method on a symbolic string / on a context item that must be a string (obligation): a function of it
+        from .lib import str_operand, symstr_method
+        r = symstr_method(ip, st, str_operand(ip, st, recv, "." + name), name, pos, kws)
+        if r is not None:
+            return r
     if isinstance(recv, Ref):
         cell = st.heap[recv.cid]
         if type(cell).__name__ == "KeyMapCell":
